@@ -171,6 +171,38 @@ func main() {
 			}
 		}
 	}
+	// systematic: every kind of length/count field x boundary values x truncation inside the governed region
+	perKind := 4
+	maxCuts := 40
+	if thorough {
+		perKind, maxCuts = 60, 1 << 20
+	}
+	kindSeen := map[string]int{}
+	for i, tries := 0, 0; tries < 4000 && i < 14*perKind; tries++ {
+		r := rng.Fork(uint64(9000000 + tries))
+		g := &bgpx.G{R: r, K: r.Intn(16), Clean: true}
+		w := g.Message()
+		used := false
+		for ri, reg := range w.Regions {
+			if kindSeen[reg.Kind] >= perKind || used {
+				continue
+			}
+			if reg.Kind == "nhlen" && tries%2 == 0 && w.B[reg.Off] != 32 {
+				continue // every other nhlen sample is a 32-byte (global + link-local) next hop
+			}
+			kindSeen[reg.Kind]++
+			used = true
+			i++
+			n := 0
+			w.FieldTruncations(reg, maxCuts, func(b []byte) {
+				do(fmt.Sprintf("s%d-%d-%d", tries, ri, n), g.K, b, false)
+				n++
+				tr.Count("stream_field-boundary-x-truncation")
+			})
+			tr.Count("systematic_field_" + reg.Kind)
+		}
+	}
+
 	// long inputs: far more bytes than the header announces (thorough: allocation measured)
 	for i := 0; i < 8; i++ {
 		r := rng.Fork(uint64(7000000 + i))
